@@ -198,7 +198,10 @@ class Run:
             if r["rc"] == -9:
                 raise Inconclusive("TLC trace validation timed out on %s (%s)" % (f, module))
             consumed = r["depth"] - 1 if r["depth"] else 0
-            if not r["completed"] or r["posterr"] or consumed != len(lines):
+            if r["rejects"] and r["posterr"] and not r["evalerr"]:
+                # resynchronising trace specs skip the rest of a rejected history: fewer states than lines is expected
+                pass
+            elif not r["completed"] or r["posterr"] or consumed != len(lines):
                 if r["evalerr"] or r["rc"] not in (0, 13) and not r["posterr"]:
                     raise Inconclusive("TLC error while validating %s with %s:\n%s" % (f, module, tail(r["out"])))
                 # stateful trace: Next disabled at the first unconsumed line
